@@ -211,19 +211,49 @@ void vh_perm_random(mzp_t *P, int n) {
 #include "vh_fam.h"
 int vh_views = 0;
 
+/* views mode: some cases place two operands as disjoint windows side by side in ONE shared parent (as the
+ * library itself does with the quadrants of a matrix), and some windows are windows of windows */
+static __thread mzd_t *shared_parent = NULL;
+static __thread int shared_slotw = 0, shared_rows = 0, shared_r0 = 0, shared_used = 0;
+void vh_mk_reset(void) { shared_parent = NULL; shared_used = 0; }
+
 mzd_t *vh_mk(rci_t m, rci_t n, int force) {
   int win = force < 0 ? vh_views : force;
   if (!win) return vh_new(m, n);
   static const int r0s[] = {0, 0, 1, 5};
   static const int w0s[] = {0, 1, 1, 2, 3};
   static const int xr[] = {0, 0, 1, 17, 64, 65, 130};
+  /* second operand of a shared parent */
+  if (shared_parent && shared_used == 1 && m <= shared_rows && n <= shared_slotw - 64) {
+    shared_used = 2;
+    int c0 = shared_slotw + 64 * vh_randint(0, (shared_slotw - n) / 64 > 1 ? 1 : 0);
+    int rr = shared_r0 + vh_randint(0, shared_rows - m > 2 ? 2 : shared_rows - m);
+    return vh_win(shared_parent, rr, c0, rr + m, c0 + n);
+  }
   int r0 = r0s[vh_randint(0, 3)], w0 = w0s[vh_randint(0, 4)];
   int below = vh_randint(0, 2) ? vh_randint(1, 3) : 0;
   int right = xr[vh_randint(0, 6)];
+  if (!shared_parent && vh_randint(0, 3) == 0 && (long)m * n < 90000) {
+    /* open a shared parent: slot 1 holds this operand, slot 2 (same width) is left for the next one */
+    shared_slotw = ((w0 * 64 + n + 63) / 64) * 64 + 128;
+    shared_rows = m + 3;
+    shared_r0 = r0;
+    mzd_t *P = vh_new(r0 + shared_rows + below, 2 * shared_slotw + right);
+    vh_fill_dense(P);
+    shared_parent = P;
+    shared_used = 1;
+    return vh_win(P, r0, w0 * 64, r0 + m, w0 * 64 + n);
+  }
   mzd_t *P = vh_new(r0 + m + below, w0 * 64 + n + right);
   switch (vh_randint(0, 2)) {
   case 0: vh_fill_ones(P); break;
   default: vh_fill_dense(P); break;
+  }
+  if (vh_randint(0, 4) == 0 && r0 + w0 > 0) {
+    /* a window of a window: first the enclosing view (to the end of the parent), then the operand inside it */
+    mzd_t *O = vh_win(P, r0 > 0 ? r0 - (r0 > 1 ? 1 : 0) : 0, (w0 > 0 ? w0 - 1 : 0) * 64, P->nrows, P->ncols);
+    int ir = r0 > 1 ? 1 : 0, ic = (w0 > 0 ? 1 : 0) * 64;
+    return vh_win(O, ir, ic, ir + m, ic + n);
   }
   return vh_win(P, r0, w0 * 64, r0 + m, w0 * 64 + n);
 }
